@@ -329,7 +329,35 @@ def gen_others_frames(rng, tier):
             yield dict(tag='powf/%s/%s/%s/%s/%s/%s' % (shape, rel, crel, how, m, ch), lines=['(ops powf %s %s %s %s %s)' % (enc_in(a), enc_in(b), how, m, ch)])
 
 
+def gen_mm_frames(rng, tier):
+    """min_ / max_ over scalars, Series and frames with several columns (df_sync of all operands, then the left fold)"""
+    n = 300 if tier == 'quick' else 7000
+    for _ in range(n):
+        how, m, ch = rng.choice(HOWS), rng.choice(METHODS), rng.choice(CHS)
+        shape = rng.choice(['df-df', 'df-df', 'df-df', 'df-ts', 'ts-df', 'df-num', 'num-df', 'list-none', 'list-none', 'df-list', 'list-df'])
+        k = 2 if 'list' not in shape else rng.choice([3, 3, 4])
+        days, rel = rand_fdays(rng, k)
+        cs, crel = rand_colsets(rng, k)
+        num = lambda: rng.choice([0.0, 1.0, 2.0, -0.5, 4.0, 1, 0.25, nan])
+
+        def mk(kind, j):
+            return rand_frame(rng, days[j], VALS, cs[j]) if kind == 'df' else rand_series(rng, days[j], VALS) if kind == 'ts' else num()
+        if 'list' in shape:
+            kinds = [rng.choice(['df', 'df', 'ts', 'num']) for _ in range(k)]
+            kinds[rng.randrange(k)] = 'df'
+            if 'ts' in kinds and ch == 'ij' and rng.random() < 0.9:
+                cs = [c if 'b' in c else ['b', 'c'] for c in cs]     # mostly keep a common column: a frame without columns beside a Series raises
+            xs = [mk(kinds[j], j) for j in range(k)]
+            a, b = (xs, None) if shape == 'list-none' else (xs[0], xs[1:]) if shape == 'df-list' else (xs[:-1], xs[-1])
+        else:
+            ka, kb = shape.split('-')
+            a, b = mk(ka, 0), mk(kb, 1)
+        yield dict(tag='mmf/%s/%s/%s/%s/%s/%s' % (shape, rel, crel, how, m, ch),
+                   lines=['(ops mmf %s %s %s %s %s %s)' % (rng.choice(['min', 'max']), enc_in(a), enc_in(b), how, m, ch)])
+
+
 def generate(rng, tier):
+    yield from gen_mm_frames(rng, tier)
     yield from gen_series(rng, tier)
     yield from gen_frames(rng, tier)
     yield from gen_others(rng, tier)
@@ -452,6 +480,13 @@ def run_line(state, sx):
         if isinstance(res, pd.Series) and len(res) == 0:
             return 'ok (bts (L))'                # no common column: `pd.Series({})`, an empty Series of no particular dtype
         return 'ok ' + enc_out(res)
+    if op == 'mmf':
+        a, b = dec_in(args[1]), dec_in(args[2])
+        before = A.snapshot_tree([a, b])
+        res = _fn(args[0] + '_')(a, b, join=args[3], method=A.dec_method(args[4]), columns=args[5])
+        if not A.same_tree([a, b], before):
+            return 'violation input-modified'
+        return 'ok ' + enc_out(res, sort_columns=True)
     if op == 'aggf':
         xs = dec_in(args[1])
         before = A.snapshot_tree(xs)
